@@ -108,6 +108,13 @@ func runPipe(t []string) *Obs {
 	capsS := strings.Split(kv["caps"], ",")
 	delaysS := strings.Split(kv["delays"], ",")
 	procs := atoi(kv["procs"])
+	// a consumer that stalls on purpose (negative delay) extends the time the call may take
+	var stallAllowance time.Duration
+	for _, ds := range delaysS {
+		if d := atoi(ds); d < 0 {
+			stallAllowance += time.Duration(-d) * time.Millisecond
+		}
+	}
 	old := runtime.GOMAXPROCS(procs)
 	defer runtime.GOMAXPROCS(old)
 
@@ -171,8 +178,8 @@ func runPipe(t []string) *Obs {
 	case p := <-done:
 		o.returned = p == ""
 		o.panicTxt = p
-	case <-time.After(30 * time.Second):
-		o.panicTxt = "HandleMessagesUntilEOF did not return within 30 s"
+	case <-time.After(30*time.Second + stallAllowance):
+		o.panicTxt = fmt.Sprintf("HandleMessagesUntilEOF did not return within %v", 30*time.Second+stallAllowance)
 	}
 	if o.returned {
 		// what the applications do next: close the consumer channels (a double close would panic)
